@@ -722,7 +722,7 @@ theorem refines_fire {sys : ActorSys σ η} (hu : UdpModel sys) (hr : NoRandom s
       have hkt : k = .timeout t := by rw [← hk.1, ht]
       subst hkt
       have harmed : t ∈ armed (rs.ints i) :=
-        mem_armed.2 ⟨en.2, by rw [← ht]; exact hen, Nat.lt_of_le_of_lt hk.2 hinv.now⟩
+        mem_armed.2 ⟨en.2, by rw [← ht]; exact hen, Nat.lt_trans hk.2 hinv.now⟩
       split at h
       · cases h
       · rename_i ns cmds hh
